@@ -325,6 +325,9 @@ class Kls(object):
     def meth(self):
         self.field = foo
         return self
+    @property
+    def nxt(self):
+        return Kls()
 obj = Kls()
 def f(*a, **k): return obj
 d = {}
@@ -356,7 +359,13 @@ TEMPLATES = [
     (';', 'from os import getcwd; from sys import argv; {e}'),
     # evaluation that may come back to the expression under the cursor (loop-carried / self-referential)
     ('selfref', 'while obj:\n    obj = {e}'), ('selfref', 'for it in d:\n    obj = {e}\nobj.attr'),
-    ('selfref', 'obj.field = {e}'), ('selfref', 'while obj:\n    prev = obj\n    obj = {e}\n    prev = obj'),
+    ('selfref', 'obj.field = {e}'),
+    # the receiver of a later attribute assignment is evaluated THROUGH the attribute under the cursor
+    ('selfref', 'second = {e}\nsecond.label = 1'), ('selfref', 'second = {e}\nthird = second\nthird.label = 1\nsecond.other = 2'),
+    # '#' inside a string literal left of the cursor is not a comment
+    ('hashstr', "f('job #%s', {e})"), ('hashstr', "x = d.get(1, '#000000') or {e}"), ('hashstr', 'x = " # no comment" + str({e})'),
+    ('hashstr', "x = ['#', ' #', {e}]"), ('hashstr', 'x = f"n #{{foo}} {{{e}}}"'), ('hashstr', "x = '''a #b''' if {e} else 0"),
+    ('hashstr', "f('#', {e})  # real comment after the cursor"), ('selfref', 'while obj:\n    prev = obj\n    obj = {e}\n    prev = obj'),
     ('fstring', 'x = f"{{{e}}}"'), ('fstring', 'x = f"a {{{e}!r}} b"'), ('fstring', "x = f'{{1+{e}:>3}}'"),
     ('string', 'x = "{e}"'), ('string', "x = 'see {e} here'"), ('string', 'x = "a.{e}"'), ('string', 'x = """({e}"""'),
     ('string', 'x = "=\\"{e}"'), ('string', 'x = b"{e}"'),
@@ -377,7 +386,7 @@ TEMPLATES = [
 
 EXPRS = ['foo', 'bar', 'obj', 'Kls', 'os', 'osp', 'path', 'zz', 'f', 'na\u00efve',
          'obj.attr', 'obj.meth', 'obj.field', 'os.path', 'osp.join', 'os.path.join', 'bar.upper', 'Kls.attr',
-         'foo.real', 'obj.meth().field', 'f().attr', 'zz.qq', 'path.sep.join']
+         'foo.real', 'obj.meth().field', 'f().attr', 'zz.qq', 'path.sep.join', 'obj.nxt', 'obj.nxt.nxt', 'obj.meth()']
 
 WRAPPERS = [
     ('module', '{L}'),
@@ -850,7 +859,8 @@ def run_jobs(jobs, parallel=True):
     import multiprocessing
     mp = multiprocessing.get_context('fork')
     with ProcessPoolExecutor(max_workers=min(NCPU, 16), mp_context=mp) as ex:
-        return list(ex.map(analyse_source, jobs, chunksize=max(1, len(jobs) // (NCPU * 8))))
+        # bounded: a worker that hangs past the per-call alarms ends the check with a harness VIOLATION
+        return list(ex.map(analyse_source, jobs, chunksize=max(1, len(jobs) // (NCPU * 8)), timeout=3000))
 
 
 def run(ctx):
@@ -923,13 +933,24 @@ def run(ctx):
                 nviol += 1
                 cls_key = '+'.join(sorted({w for w, _d in bad}))
                 per_class[cls_key] = per_class.get(cls_key, 0) + 1
-                if per_class[cls_key] <= 4:
-                    ctx.violation('assist at %r of %s: %s' % ((r['ln'], r['col']), j['tmpl'] if j['tag'] != 'gen' else repr(r['line']),
-                                                              '; '.join(d for _w, d in bad)),
-                                  {'kind': 'direct', 'source': j['text'] if j['tag'] != 'file' else None,
-                                   'file': j['filename'], 'position': [r['ln'], r['col']], 'target_kind': r['kind'],
-                                   'ident': r['ident'], 'start': r['start'], 'failures': bad, 'relfile': j.get('relfile'),
-                                   'must_return': r.get('must_return'), 'package': r.get('package'), 'known': r.get('known')})
+                in_domain = r['col'] > r['start'] and r['kind'] != 'store'
+                what = 'assist at %r of %s: %s' % ((r['ln'], r['col']), j['tmpl'] if j['tag'] != 'gen' else repr(r['line']),
+                                                   '; '.join(d for _w, d in bad))
+                rep = {'kind': 'direct', 'source': j['text'] if j['tag'] != 'file' else None,
+                       'file': j['filename'], 'position': [r['ln'], r['col']], 'target_kind': r['kind'],
+                       'ident': r['ident'], 'start': r['start'], 'failures': bad, 'relfile': j.get('relfile'),
+                       'must_return': r.get('must_return'), 'package': r.get('package'), 'known': r.get('known')}
+                if not in_domain:
+                    # cursor before the first character of the identifier / on a name being bound: outside the
+                    # quantifier "at the end of, and inside, every name read, attribute access and import name"
+                    next_ext = cov.get('extension_failures', 0) + 1
+                    cov['extension_failures'] = next_ext
+                    nviol -= 1
+                    per_class[cls_key] -= 1
+                    if next_ext <= 8:
+                        ctx.extension_failure(what, rep)
+                elif per_class[cls_key] <= 4:
+                    ctx.violation(what, rep)
     cov['direct_failures'] = nviol
     cov['direct_failure_classes'] = per_class
     total = len(flat)
@@ -939,6 +960,11 @@ def run(ctx):
     for j, r in flat[:3] + [x for x in flat if x[0]['tag'] == 'file'][:3]:
         ctx.sample({'line': r['line'][:80], 'position': [r['ln'], r['col']], 'kind': r['kind'], 'prefix': r['prefix'],
                     'n_proposals': None if r['props'] is None else len(r['props']), 'exception': r['exc']})
+    timeouts = sum(1 for _j, r in flat if r['exc'] == 'Timeout' or r.get('exp_exc') == 'Timeout')
+    cov['positions_timed_out'] = timeouts
+    if total and timeouts > max(5, 0.02 * total):
+        ctx.violation('%d of %d cursor positions ran into the per-call time limit: assist or the analysis hangs' % (timeouts, total),
+                      {'kind': 'timeouts', 'count': timeouts}, found_input=False)
     if total and crashed > 0.35 * total:
         ctx.violation('assist raised on %d of %d cursor positions: the contract cannot be evaluated' % (crashed, total),
                       {'kind': 'crashes', 'histogram': cov.get('assist_exceptions')}, found_input=False)
